@@ -32,9 +32,15 @@ import re
 import struct
 from typing import Any, Optional
 
+import warnings
+
 from hypothesis import strategies as st
+from hypothesis.errors import HypothesisWarning
 
 from vlib import gens
+
+# The graph strategy is a large (cached) tree of strategies; its repr is never looked at.
+warnings.filterwarnings('ignore', message='Generating overly large repr', category=HypothesisWarning)
 
 VTYPES = [
     'element', 'int', 'float', 'bool', 'string', 'binary', 'time', 'color',
@@ -57,15 +63,19 @@ def type_is_kv2_keyword(type_name: str) -> bool:
 # Strategy
 
 def _text(ascii_only: bool, nul: bool, max_size: int):
+    """Strings: syntax-heavy ASCII, arbitrary characters, or a mix.  (A `str`/`characters()` alphabet keeps
+    each string a single Hypothesis choice - an order of magnitude cheaper than per-character strategies.)"""
+    esc = ''.join(c for c in gens.ESCAPE_ALPHABET + gens.LETTERS
+                  if (not ascii_only or ord(c) < 128) and (nul or c != '\x00'))
+    syntax = st.text(esc, max_size=max_size)
     if ascii_only:
-        esc = ''.join(c for c in gens.ESCAPE_ALPHABET if ord(c) < 128 and (nul or c != '\x00'))
-        alpha = st.one_of(
-            st.sampled_from(esc), st.sampled_from(gens.LETTERS),
-            st.characters(min_codepoint=0 if nul else 1, max_codepoint=127),
-        )
+        anychar = st.text(st.characters(min_codepoint=0 if nul else 1, max_codepoint=127), max_size=max_size)
     else:
-        alpha = gens.text_alphabet(exclude='' if nul else '\x00')
-    return st.text(alpha, max_size=max_size)
+        anychar = st.text(st.characters(exclude_categories=['Cs'], exclude_characters='' if nul else '\x00'),
+                          max_size=max_size)
+    half = max(1, max_size // 2)
+    mixed = st.tuples(st.text(esc, max_size=half), anychar).map(lambda p: (p[0] + p[1])[:max_size])
+    return st.one_of(syntax, anychar, mixed)
 
 
 def _f32():
@@ -85,10 +95,9 @@ def _angle_comp():
 
 
 N_STUB_POOL = 3
+_ELEM_REF = st.integers(0, 11).map(lambda i: ['e', i])
 _ELEM_ITEM = st.one_of(
-    st.integers(0, 2 ** 16).map(lambda i: ['e', i]),
-    st.integers(0, 2 ** 16).map(lambda i: ['e', i]),
-    st.integers(0, 11).map(lambda i: ['e', i]),
+    _ELEM_REF, _ELEM_REF, _ELEM_REF, _ELEM_REF,
     st.just(['null']),
     st.integers(0, N_STUB_POOL - 1).map(lambda k: ['stub', k]),   # replaced by a pool UUID in _finish()
 )
@@ -127,13 +136,23 @@ def _finish(pair):
     def fix(item):
         return ['stub', pool[item[1]]] if item[0] == 'stub' else item
 
+    # Every element i >= 1 is a member of the "children" array of an earlier element (a spanning tree, so the whole
+    # graph is reachable from the root); the drawn links and element attributes add sharing, cycles, NULLs and stubs.
+    children = [[fix(x) for x in e[4]] for e in elems]
+    for i in range(1, len(elems)):
+        kids = children[elems[i][6] % i]
+        kids.insert((elems[i][6] // 12) % (len(kids) + 1), ['e', i])
     out = []
-    for i, (etype, ename, attrs) in enumerate(elems):
+    for i, (etype, ename, attrs, link_name, _, link_pos, _) in enumerate(elems):
         alist = []
         for nm, (vt, (is_arr, val)) in attrs:
             if vt == 'element':
                 val = [fix(x) for x in val] if is_arr else fix(val)
             alist.append([nm, vt, is_arr, val])
+        if children[i]:
+            while any(a[0].casefold() == link_name.casefold() for a in alist) or link_name.casefold() == 'name':
+                link_name += '_'
+            alist.insert(link_pos % (len(alist) + 1), [link_name, 'element', True, children[i]])
         out.append({'type': etype, 'name': ename, 'uuid': hexes[i], 'attrs': alist})
     return {'elems': out}
 
@@ -158,10 +177,20 @@ def _graphs(max_elems, max_attrs, max_array, ascii_only, nul, vtypes, kv2_safe_t
     if kv2_safe_types:
         type_name = type_name.filter(lambda s: not type_is_kv2_keyword(s))
     attrs = st.lists(st.tuples(attr_name, st.one_of(choices)), max_size=max_attrs, unique_by=lambda a: a[0].casefold())
-    elem = st.tuples(type_name, text, attrs)
-    ids = st.lists(st.integers(1, 2 ** 128 - 1), min_size=max_elems + N_STUB_POOL, max_size=max_elems + N_STUB_POOL,
-                   unique=True)
-    return st.tuples(st.lists(elem, min_size=1, max_size=max_elems), ids).map(_finish)
+    if 'element' in vtypes:
+        links = st.lists(_ELEM_ITEM, max_size=max(2, max_array - 2))
+    else:
+        links = st.just([])
+    elem = st.tuples(type_name, text, attrs, attr_name, links, st.integers(0, max_attrs), st.integers(0, 143))
+    n_ids = max_elems + N_STUB_POOL
+    # 15 random bytes + a distinct non-zero last byte each: distinct, non-zero UUIDs from a single choice.
+    ids = st.binary(min_size=15 * n_ids, max_size=15 * n_ids).map(
+        lambda b: [int.from_bytes(b[15 * i:15 * i + 15] + bytes([i + 1]), 'big') for i in range(n_ids)])
+    # The element count is drawn first (lists of composite items are otherwise heavily biased to length 1).
+    sizes = sorted({min(max_elems, k) for k in (1, 2, 3, 4, 5, 6, 8, 10, 12, max_elems)})
+    by_size = {k: st.lists(elem, min_size=k, max_size=k) for k in sizes}
+    weighted = [k for k in sizes for _ in range(1 if k == 1 else 2)]
+    return st.tuples(st.sampled_from(weighted).flatmap(by_size.__getitem__), ids).map(_finish)
 
 
 def graph_descs(
@@ -371,7 +400,7 @@ def canon_graph(root) -> dict:
         elem = order[pos]
         pos += 1
         attrs = []
-        for key, attr in elem.items():
+        for key, attr in zip(elem.keys(), elem.values()):
             if key == 'name':
                 continue  # the element name, reported below
             vt, suffix, conv = items[attr.type]
